@@ -106,6 +106,8 @@ pub struct Session {
     pub sp_limit: Rc<std::cell::Cell<usize>>,
     /// instruction budget of one evaluation (watchdog)
     pub instr_limit: Rc<std::cell::Cell<u64>>,
+    /// instructions executed by the evaluation in progress (reset by `eval`)
+    pub instr_used: Rc<std::cell::Cell<u64>>,
 }
 
 fn xorshift(s: &mut u64) -> u64 {
@@ -128,11 +130,12 @@ impl Session {
             }
             out.borrow_mut().clear();
         }
-        Session { vm, out, dead: false, sp_limit: Rc::new(std::cell::Cell::new(usize::MAX)), instr_limit: Rc::new(std::cell::Cell::new(INSTR_LIMIT)) }
+        Session { vm, out, dead: false, sp_limit: Rc::new(std::cell::Cell::new(usize::MAX)), instr_limit: Rc::new(std::cell::Cell::new(INSTR_LIMIT)), instr_used: Rc::new(std::cell::Cell::new(0)) }
     }
 
     pub fn install_sched(&mut self, sched: &Sched) {
         let limit = self.instr_limit.clone();
+        let used = self.instr_used.clone();
         let mut count: u64 = 0;
         let sched = sched.clone();
         let sp_limit = self.sp_limit.clone();
@@ -145,12 +148,13 @@ impl Session {
                 return false;
             }
             count += 1;
-            if count > limit.get() {
-                count = 0;
+            used.set(used.get() + 1);
+            if used.get() > limit.get() {
+                used.set(0);
                 panic!("verif-timeout");
             }
             if _vm.verif_stack().get_sp() > sp_limit.get() {
-                count = 0;
+                used.set(0);
                 panic!("verif-stacklimit");
             }
             match sched {
@@ -164,6 +168,7 @@ impl Session {
     /// Evaluate one form under cfg.  Returns the outcome and the per-slice instruction counts.
     pub fn eval(&mut self, form: &Cell, cfg: &RunCfg) -> (Outcome, Vec<(usize, u64)>) {
         let mut slices = vec![];
+        self.instr_used.set(0);
         let vm = &mut self.vm;
         let res = catch_unwind(AssertUnwindSafe(|| -> Result<Option<Cell>, Error> {
             match &cfg.budgets {
